@@ -323,6 +323,21 @@ def standin_roundtrip(tier, seed):
             c = ThermochemIncomplete(H, S, cp, 298.15, (lo, hi))
         for um in unit_maps:
             check('random%d' % r, c, um)
+    # the same object formatted, MODIFIED, and formatted again with the same units: the second text describes the object as it is now
+    for r in range(12 if tier == 'quick' else 60):
+        Ts = sorted(rnd.sample(range(300, 1500, 50), 4))
+        cp = {float(t): round(rnd.uniform(1, 20), 4) for t in Ts}
+        c = ThermochemIncomplete(rnd.uniform(-50, 50), rnd.uniform(1, 60), cp, 298.15, (250.0, 1600.0))
+        um = rnd.choice(unit_maps)
+        with real.quiet():
+            c.yaml_format(um)
+        how = rnd.choice(['del_ND_H_ref', 'del_ND_S_ref', 'set_range'])
+        with real.quiet():
+            if how == 'set_range':
+                c.set_range((260.0, 1550.0))
+            else:
+                getattr(c, how)()
+        check('modified-after-first-format-%s-%d' % (how, r), c, um)
     for libname in (real.LIBS if tier != 'quick' else real.LIBS[:3]):
         lib = real.load(libname)
         for g in real.thermo_groups(lib)[:None if tier != 'quick' else 25]:
